@@ -365,6 +365,33 @@ fn shard(seed: u64, shard: u64, n: u64) -> Tally {
                 }
             }
         }
+        // folded forms around the size at which the merged query no longer fits a request target (65 534 bytes): below it
+        // the request is accepted with every parameter handed back, above it it is refused as a query-string defect —
+        // never accepted with parameters missing
+        if i % 97 == 48 {
+            let mut big = l.clone();
+            big.method = "POST".into();
+            big.body.clear();
+            let n = *r.pick(&[40_000usize, 55_000, 58_000, 65_400, 65_600, 66_500, 70_000, 140_000]);
+            big.form_pairs = Some(vec![(b"a".to_vec(), b"1".to_vec()), (b"Message".to_vec(), r.string_from("abcdefghijklmnopqrstuvwxyz0123456789", n).into_bytes())]);
+            big.content_type = Some(b"application/x-www-form-urlencoded".to_vec());
+            let present = crate::gen::present_header_names(&big);
+            big.signed.retain(|s| present.contains(s));
+            let mut on = cfg.clone();
+            on.fold = true;
+            on.s3 = false;
+            let mut sr = Rng::keyed(seed, "C12", "big-fold", shard, i);
+            let mut sp = Speller {
+                r: &mut sr,
+                level: 0,
+            };
+            let (cb, _) = make_case(&big, &on, &mut sp, &Overrides::default(), 0);
+            match judge_one(&mut t, &cb, "folded/around-64KiB") {
+                Some((true, _)) => t.count("big_folded_form_accepted_with_all_parameters"),
+                Some((false, st)) if st == Stage::Query => t.count("oversize_folded_form_refused_as_query_defect"),
+                _ => {}
+            }
+        }
         let _ = Verdict::Accept;
     }
     t
@@ -619,10 +646,12 @@ pub fn run(tier: Tier) -> i32 {
     ctx.gate("odd charset labels / undecodable bodies accepted when hashed verbatim, folding on but another media type", tally.get("verbatim_odd_accepted_other_type"), tier.n(1_000, 20_000));
     ctx.gate("form bodies starting with a UTF-8 BOM accepted with every byte signed", tally.get("utf8_bom_body_accepted_with_every_byte_signed"), tier.n(60, 6000));
     ctx.gate("form bodies in UTF-16 behind a BOM refused as 400", tally.get("utf16_bom_body_refused_400"), tier.n(60, 6000));
+    ctx.gate("folded forms of 40–58 KB accepted with every parameter returned", tally.get("big_folded_form_accepted_with_all_parameters"), tier.n(100, 2000));
+    ctx.gate("folded forms too large for a request target refused as a query-string defect", tally.get("oversize_folded_form_refused_as_query_defect"), tier.n(100, 2000));
     ctx.gate("bodies ≥ 64 KiB accepted when hashed verbatim", tally.get("big_body_accepted"), tier.n(50, 1000));
     let rep = Report {
         level: "exploration",
-        rule: "URL parameter lists × body parameter lists of 0–10 pairs (controlled share of names occurring in both and repeated inside the body, empty values) × content-type spellings (form with/without charset=utf-8 variants, other media types, absent; letter-case / other-charset / quoted variants executed but not judged) × both option values. Each wire request is signed twice by the reference signer — over the merged multiset with the empty-body hash, and over the URL-only query with the verbatim body hash — and validated under both option values: exactly the matching signature must be accepted. Plus body byte flips (verbatim), parameter byte changes (folded), invalid UTF-8 / bad escapes / unknown charsets (must be 400), 70 KiB bodies; presigned form POSTs whose body repeats one authentication parameter of the URL with another value (signed as received: the URL's copy must decide; with the valid signature in the body and a wrong one in the URL the request must be refused); the returned URI's query multiset is checked against URL ⊎ body. Non-trivial = a four-way option-flip group decided correctly, or a flipped/undecodable body refused with the expected class; distinct by case hash.".into(),
+        rule: "URL parameter lists × body parameter lists of 0–10 pairs (controlled share of names occurring in both and repeated inside the body, empty values) × content-type spellings (form with/without charset=utf-8 variants, other media types, absent; letter-case / other-charset / quoted variants executed but not judged) × both option values. Each wire request is signed twice by the reference signer — over the merged multiset with the empty-body hash, and over the URL-only query with the verbatim body hash — and validated under both option values: exactly the matching signature must be accepted. Plus body byte flips (verbatim), parameter byte changes (folded), invalid UTF-8 / bad escapes / unknown charsets (must be 400), 70 KiB bodies; folded forms of 40 to 140 KB around the 65 534-byte limit of a request target (accepted with everything returned below it, refused as a query-string defect above it); presigned form POSTs whose body repeats one authentication parameter of the URL with another value (signed as received: the URL's copy must decide; with the valid signature in the body and a wrong one in the URL the request must be refused); the returned URI's query multiset is checked against URL ⊎ body. Non-trivial = a four-way option-flip group decided correctly, or a flipped/undecodable body refused with the expected class; distinct by case hash.".into(),
         assumptions: vec!["media type compared in lower case; charsets other than UTF-8 that do decode are outside the statement (DESIGN §6)".into()],
         extra: J::obj().set("calibrated_vectors", J::i(pre.unwrap_or(0) as i64)),
     };
